@@ -298,6 +298,23 @@ func genC08(e *emitter, r *rng, thorough bool) {
 		ops = append(ops, "p0:"+hx([]byte(strings.Join(parts, "/"))))
 		e.emit("path.fold", xkLine("seed:"+hx(r.bytes(32))+":0", ops))
 	}
+	// DerivePublicKeyFromPath on imported keys (private and public, valid and malformed paths, hardened from public)
+	{
+		m, _ := bip32.NewMaster(r.bytes(32), nets[r.intn(2)].params)
+		pm, _ := m.Neuter()
+		for _, ks := range []string{m.String(), pm.String(), "xprv0OIl", m.String()[:len(m.String())-1] + "1"} {
+			for _, pth := range []string{"0", "0/1", "0'/1", "2147483648", "1/2147483647'", "", "/", "0/", "4294967296", "1/2/3/4/5", "007"} {
+				e.emit("dpub", "xk.dpub "+hx([]byte(ks))+" "+hx([]byte(pth)))
+			}
+			for i := 0; i < n/4; i++ {
+				var sb strings.Builder
+				for j := 0; j < 1+r.intn(6); j++ {
+					sb.WriteString(alphabet[r.intn(len(alphabet))])
+				}
+				e.emit("dpub.fuzz", "xk.dpub "+hx([]byte(ks))+" "+hx([]byte(sb.String())))
+			}
+		}
+	}
 	// DerivePath / DeriveNumber
 	u64s := []uint64{0, 1, 2, 3, 4, 1<<31 - 1, 1 << 31, 1<<31 + 1, 1<<33 - 1, 1 << 33, 1<<33 + 1, 1 << 62, 1<<63 - 1, 1 << 63, 1<<64 - 1, 172732732}
 	nu := 100
